@@ -234,9 +234,15 @@ def parse_result(text):
     return res
 
 
+def is_user_location(loc):
+    """failing check located in the crate under test or in a harness (not in core/heapless/kani)"""
+    l = loc.lstrip("./")
+    return "verif/harness/" in loc or l.startswith("src/") or "/harness/" in loc
+
+
 def classify(h, res, known_tags):
     """-> dict(state, failures, known, covers, notes)"""
-    out = {"state": "ok", "failures": [], "known": [], "unwind": [], "covers_sat": 0, "covers_total": 0,
+    out = {"state": "ok", "failures": [], "lib_failures": [], "known": [], "unwind": [], "covers_sat": 0, "covers_total": 0,
            "covers_unsat": [], "n_checks": 0, "n_success": 0, "n_unreachable": 0, "n_undetermined": 0}
     for c in res["checks"]:
         is_cover = ".cover." in c["name"] or c["status"] in ("SATISFIED", "UNSATISFIABLE")
@@ -262,12 +268,24 @@ def classify(h, res, known_tags):
                 m = KF_RE.search(c["desc"])
                 if m and m.group(1) in known_tags:
                     out["known"].append((m.group(1), c))
-                else:
+                elif is_user_location(c["loc"]):
                     out["failures"].append(c)
+                else:
+                    # a failing check inside core / heapless / kani library code with no failing check in
+                    # the crate or the harness: seen as an engine artefact under memory pressure
+                    # (three Vec::remove in a row); only believed if it reproduces natively
+                    out["lib_failures"].append(c)
         else:
             out["failures"].append(c)
     if out["failures"]:
+        out["failures"] += out["lib_failures"]
         out["state"] = "violation"
+    elif out["lib_failures"]:
+        out["failures"] = out["lib_failures"]
+        out["state"] = "suspect"
+    elif out["known"] and not out["unwind"]:
+        # the only failing checks are assertions tagged with a listed known finding
+        out["state"] = "known"
     elif out["unwind"]:
         out["state"] = "bound_too_small"
     elif res["verdict"] != "SUCCESSFUL" or out["n_checks"] == 0:
@@ -386,16 +404,19 @@ def run_property(prop, tier, only=None, keep=False, seed=0):
         light = {k: [h for h in hs if h.kind == k and not h.heavy] for k in kinds}
         heavy = {k: [h for h in hs if h.kind == k and h.heavy] for k in kinds}
         n_groups = sum(1 for k in kinds if light[k]) + sum(1 for k in kinds if heavy[k])
+        # heavy harnesses (L3c coroutines: 2-13 GB each) run at most HEAVY_JOBS at a time; the remaining
+        # job slots are shared by the light groups in proportion to their number of harnesses
+        n_heavy = sum(len(heavy[x]) for x in kinds)
+        heavy_jobs = min(HEAVY_JOBS, n_heavy)
+        light_jobs = max(2, total_jobs - heavy_jobs)
+        n_light = sum(len(light[x]) for x in kinds)
         for k in kinds:
-            # heavy harnesses (L3c coroutines: 2-13 GB each) run at most HEAVY_JOBS at a time
-            n_heavy = sum(len(heavy[x]) for x in kinds)
-            heavy_jobs = min(HEAVY_JOBS, n_heavy)
-            light_jobs = max(2, total_jobs - heavy_jobs)
             if light[k]:
-                j = max(1, min(len(light[k]), light_jobs // max(1, len([x for x in kinds if light[x]]))))
-                groups.append(GroupRun(k, light[k], scratch, j, per_to, mem_kb))
+                share = max(1, round(light_jobs * len(light[k]) / max(1, n_light)))
+                groups.append(GroupRun(k, light[k], scratch, min(len(light[k]), share), per_to, mem_kb))
             if heavy[k]:
-                groups.append(GroupRun(k, heavy[k], scratch, max(1, min(len(heavy[k]), heavy_jobs // max(1, len([x for x in kinds if heavy[x]])))), per_to, mem_kb, tag="-heavy"))
+                share = max(1, round(heavy_jobs * len(heavy[k]) / max(1, n_heavy)))
+                groups.append(GroupRun(k, heavy[k], scratch, min(len(heavy[k]), share), per_to, mem_kb, tag="-heavy"))
         for g in groups:
             g.start()
         budget = per_to * 3 + 600
@@ -425,7 +446,7 @@ def run_property(prop, tier, only=None, keep=False, seed=0):
                     rec["known_findings"] = sorted(set(t for t, _ in cl["known"]))
                     for t, c in cl["known"]:
                         kf_hit.setdefault(t, []).append(h.name)
-                if cl["state"] == "ok":
+                if cl["state"] in ("ok", "known"):
                     nontrivial += 1
                 elif cl["state"] == "violation":
                     nontrivial += 1
@@ -451,9 +472,11 @@ def run_property(prop, tier, only=None, keep=False, seed=0):
             path, confirmed = concrete_playback(h, scratch, prop)
             for c in cl["failures"][:5]:
                 log("  failed: %s @ %s" % (c["desc"], c["loc"]))
-            if confirmed is False:
-                log("UNCONFIRMED property=%s harness=%s: the solver counterexample did not reproduce natively (%s)" % (prop, h.name, path))
+            if confirmed is False or (cl["state"] == "suspect" and confirmed is not True):
+                log("UNCONFIRMED property=%s harness=%s: the solver counterexample did not reproduce natively%s (%s)"
+                    % (prop, h.name, " (only library-internal checks failed: treated as an engine artefact)" if cl["state"] == "suspect" else "", path))
                 exit_code = max(exit_code, 2)
+                notes.append("%s: unconfirmed counterexample" % h.name)
                 continue
             how = "reproduced natively (dev/release playback)" if confirmed else "solver counterexample on the compiled code (native playback not applicable: %s)" % (
                 "stubs/contracts in use" if (h.stubs or h.kind == "p") else "no concrete test generated")
@@ -487,7 +510,7 @@ def run_property(prop, tier, only=None, keep=False, seed=0):
         os.makedirs(EVIDENCE, exist_ok=True)
         with open(os.path.join(EVIDENCE, prop + ".json"), "w") as fh:
             json.dump(ev, fh, indent=1)
-        ok = sum(1 for s in samples if s["verdict"] == "ok")
+        ok = sum(1 for s in samples if s["verdict"] in ("ok", "known"))
         log("%s tier=%s harnesses=%d ok=%d violations=%d known=%d inconclusive=%d solver_checks=%d wall=%.0fs"
             % (prop, tier, len(hs), ok, n_viol, len(kf_hit), len(notes), evaluations, wall))
         for n in notes:
